@@ -131,7 +131,24 @@ func pool() []univ.SNode {
 	}
 }
 
+// wideUnion: 130 branches (null, long, string, then distinctly named fixed types of 1..3 bytes): from branch 64 on
+// the zig-zag selector takes two bytes
+func wideUnion() univ.SNode {
+	bs := []*ref.Schema{ref.Prim("null"), ref.Prim("long"), ref.Prim("string")}
+	for i := 3; i < 130; i++ {
+		bs = append(bs, ref.Fixed(fmt.Sprintf("W%03d", i), i%3+1))
+	}
+	return univ.SNode{Schema: ref.Union(bs...), Chain: "union[130 branches]", Depth: 2}
+}
+
 func poolDatums(n univ.SNode) []ref.Datum {
+	if n.Chain == "union[130 branches]" {
+		ds := []ref.Datum{ref.DUnion(0, ref.DNull()), ref.DUnion(1, ref.DLong(-3)), ref.DUnion(2, ref.DString("wide"))}
+		for i := 3; i < 130; i++ {
+			ds = append(ds, ref.DUnion(i, ref.DFixed("abc"[:i%3+1])))
+		}
+		return ds
+	}
 	if n.Chain == "union[null,long,string]" {
 		return []ref.Datum{ref.DUnion(0, ref.DNull()), ref.DUnion(2, ref.DString("str")), ref.DUnion(1, ref.DLong(-77))}
 	}
@@ -335,6 +352,8 @@ func tasks4(tier string) []task4 {
 			ts = append(ts, task4{"skip-only " + n.Chain, func(c *fw.Ctx, idx int) { skipOnly(c, n) }})
 		}
 	}
+	wu := wideUnion()
+	ts = append(ts, task4{"skip-only " + wu.Chain, func(c *fw.Ctx, idx int) { skipOnly(c, wu) }})
 	p := pool()
 	for _, x := range p {
 		for _, y := range p {
@@ -395,7 +414,7 @@ func init() {
 		ID:    "C04",
 		Level: "exploration",
 		Rule: func(tier string) string {
-			return "(1) codec level: for every schema node of the C03 universe, every datum and every legal serialisation (first 256 per datum in quick) followed by a 3-byte tail, ReadBuf.Len() after Codec.Read, after reading through a record codec whose struct lacks the field (skip path), and after Codec.Skip must all equal the reference decoder's consumption; (2) file level: writer schemas record{a:X, b:Y, z:long} for every ordered pair (X,Y) of an 18-schema pool (primitives, fixed, arrays/maps incl. nested and nullable items, unions null-first/null-second/multi-branch, records, arrays of records) and the nested form record{r:record{a:X,b:Y}, z}; 3-record reference-written files in every encoding variant with <=2 writer-side deviations, rotating over block partitions and codecs; every projection of the full target struct: every subset of fields deleted × every permutation of the rest × {nothing, or one added field of kind int64/string/*int64/[]string/map[string]int64/struct}; oracle: remaining fields equal gv.Expect, added fields zero, same record count, nil error (the trailing sync check makes a mis-sized skip visible); non-trivial = a distinct (file, projection) or (encoding) that reached the comparison"
+			return "(1) codec level: for every schema node of the C03 universe, every datum and every legal serialisation (first 256 per datum in quick) followed by a 3-byte tail, ReadBuf.Len() after Codec.Read, after reading through a record codec whose struct lacks the field (skip path), and after Codec.Skip must all equal the reference decoder's consumption; (2) file level: writer schemas record{a:X, b:Y, z:long} for every ordered pair (X,Y) of an 18-schema pool (primitives, fixed, arrays/maps incl. nested and nullable items, unions null-first/null-second/multi-branch, records, arrays of records; and, skip-only, a 130-branch union with every branch selected so that two-byte selectors occur) and the nested form record{r:record{a:X,b:Y}, z}; 3-record reference-written files in every encoding variant with <=2 writer-side deviations, rotating over block partitions and codecs; every projection of the full target struct: every subset of fields deleted × every permutation of the rest × {nothing, or one added field of kind int64/string/*int64/[]string/map[string]int64/struct}; oracle: remaining fields equal gv.Expect, added fields zero, same record count, nil error (the trailing sync check makes a mis-sized skip visible); non-trivial = a distinct (file, projection) or (encoding) that reached the comparison"
 		},
 		Assumptions: []string{
 			"the expected value of every remaining field is computed by gv.Expect from the datum (stronger than, and implying, the differential 'same as the full decode')",
